@@ -189,6 +189,12 @@ def run(ctx):
             ctx.violation(v[2], {"seq": "".join(tr["seq"]), "after": tr.get("after"), "type": e["type"], "size": e["size"], "ua": e["ua"] if e["size"] == 0 else None,
                                  "w": e["w"], "s": e["s"], "ws": e["ws"], "pos": e["pos"]},
                           expected="K windows, increasing positions in 1..N, values in [0,1], local, WF = entropy", actual="trace rejected by TLC at event %d" % v[1])
+    from .. import orderswap
+    sq = common.random_sequences(ctx.rng, 1, 40, 20)[0]
+    items = [{"obj": 0, "seq": sq, "q": "get_linear_complexity", "a": a_} for a_ in
+             (["XX", 20, {}, 5, 1], ["wf ", 20, {}, 5, 1], ["WF", 20, {}, len(sq) + 1, 1], ["LC", 20, {}, len(sq) + 5, 1, 3], ["LZW", 20, {}, 10 ** 6, 1],
+              ["WF", 7, {}, 5, 1], ["WF", 20, {}, 5, 1], ["lc", 8, {}, 6, 2, 3], ["LZW", 3, {}, 7, 3], ["WF", 20, {"A": "A"}, 5, 1])]
+    orderswap.env_differential(ctx, items, "complexity-acceptance", "c11env")
     ctx.sample({"trace": {"seq": "".join(trs[-1]["seq"]), "ev": [{k: e[k] for k in ("type", "size", "w", "s", "ws", "pos")} for e in trs[-1]["ev"][:3]]}})
     ctx.extra["entropy_kernel_rows"] = len(ent)
     ctx.assumptions += ["entropy kernel -(c/W)log_k(c/W) computed by the harness with 60-digit decimals (trusted); TLC decides the counts, the base and the sum",
